@@ -109,16 +109,18 @@ def make_raw(rng, o):
         dom["full_output"] = True
     elif not o["omit_defaults"]:
         dom["full_output"] = False
+    # reference origins on the equator / the prime meridian are legitimate values, not "no origin given"
+    blat, blon = rng.choice([(50.0, 11.0), (50.0, 11.0), (0.0, 11.0), (50.0, 0.0), (0.0, 0.0)]) if o["ref"] else (50.0, 11.0)
     if o["ref"]:
-        dom["ref_lat"] = 50.0 + distinct(rng, 1, 0.0, 0.0001, taken, q=2 ** 24)[0]
-        dom["ref_lon"] = 11.0 + distinct(rng, 1, 0.0001, 0.0002, taken, q=2 ** 24)[0]
+        dom["ref_lat"] = blat + (distinct(rng, 1, 0.0, 0.0001, taken, q=2 ** 24)[0] if blat != 0.0 else 0.0)
+        dom["ref_lon"] = blon + (distinct(rng, 1, 0.0001, 0.0002, taken, q=2 ** 24)[0] if blon != 0.0 else 0.0)
     towers = []
     zs = distinct(rng, o["towers"], 2.5, 6.0, taken)
     for k in range(o["towers"]):
         towers.append({
             "name": "T%d_%03d" % (k, rng.randrange(1000)),
-            "lat": 50.0 + distinct(rng, 1, 0.0002, 0.0005, taken, q=2 ** 24)[0],
-            "lon": 11.0 + distinct(rng, 1, 0.0005, 0.0009, taken, q=2 ** 24)[0],
+            "lat": blat + distinct(rng, 1, 0.0002, 0.0005, taken, q=2 ** 24)[0],
+            "lon": blon + distinct(rng, 1, 0.0005, 0.0009, taken, q=2 ** 24)[0],
             "z_m": zs[k],
         })
     n = {"scalar": 1, "list2": 2, "list3": 3}[o["series"]]
@@ -442,7 +444,15 @@ def by_hand(mods, raw, cfg, k, i, flux):
     (an omitted optional key stands for the parser's default, read off the implementation by probe_defaults)."""
     cwf, vp, ids, sst = mods
     dom, met, sol = raw["domain"], raw["met"], raw.get("solver") or {}
-    tw = cfg.towers[k]
+    # the tower's local coordinates, by hand: latlon_to_xy of its position when the domain gives a reference origin
+    # (any value, 0.0 included), (0, 0) otherwise
+    import types
+    if dom.get("ref_lat") is not None and dom.get("ref_lon") is not None:
+        import bldfm.config_parser as _cp
+        tx, ty = _cp.latlon_to_xy(raw["towers"][k]["lat"], raw["towers"][k]["lon"], dom["ref_lat"], dom["ref_lon"])
+    else:
+        tx, ty = 0.0, 0.0
+    tw = types.SimpleNamespace(x=tx, y=ty)
     speed = sel(met.get("wind_speed", DFLT["wind_speed"]), i)
     wdir = sel(met.get("wind_dir", DFLT["wind_dir"]), i)
     mol = sel(met.get("mol", DFLT["mol"]), i)
@@ -1281,6 +1291,9 @@ def oracle(ctx, hints):
             r = oracle_yaml(impl, h["raw"], tmpdir)
             if r:
                 note(r[0], r[1], {"raw": h["raw"], "yaml": True}, size_of(h["raw"]))
+            # a dictionary the parser model disagrees on is also run: what the parser filled in (tower x, y,
+            # defaults) is what the single run uses, the by-hand pipeline works from the raw numbers
+            pool.append((h["raw"], 0, 0, None))
             continue
         pool.append((h["raw"], h.get("k", 0), h.get("i", 0), h.get("flux_seed")))
     rng = random.Random(ctx.seed + 13)
